@@ -107,3 +107,28 @@ package types
 //@ func AbsInt64
 //@ ensures x > MinInt64 ==> result == abs(x)
 //@ ensures x == MinInt64 ==> result == x
+
+// ---- C11: what goes into the signed feeds / tunnel payloads ---------------------------------------------
+// signal id as bytes32 (left-padded): accepted iff it fits; the bytes are an opaque function of the string
+//@ func StringToBytes32
+//@ pure
+//@ trusted
+//@ ensures err == nil <==> len(str) <= 32
+
+// One relay entry per price, in order, carrying the on-chain price unchanged.
+//@ func ToRelayPrices
+//@ ensures err == nil ==> len(result) == len(prices)
+//@ ensures err == nil ==> (forall j :: 0 <= j && j < len(prices) ==> result[j].Price == prices[j].Price && result[j].SignalID == absfn("StringToBytes32#0", prices[j].SignalID))
+//@ ensures err == nil <==> (forall j :: 0 <= j && j < len(prices) ==> len(prices[j].SignalID) <= 32)
+//@ loop 0: invariant len(relayPrices) == #i
+//@ loop 0: invariant forall j :: 0 <= j && j < #i ==> relayPrices[j].Price == prices[j].Price && relayPrices[j].SignalID == absfn("StringToBytes32#0", prices[j].SignalID)
+//@ loop 0: invariant forall j :: 0 <= j && j < #i ==> len(prices[j].SignalID) <= 32
+
+// One relay entry per price, in order: an unavailable price (0) stays 0, every other price is replaced by ITS OWN tick.
+//@ func ToRelayTickPrices
+//@ ensures err == nil ==> len(result) == len(prices)
+//@ ensures err == nil ==> (forall j :: 0 <= j && j < len(prices) ==> result[j].SignalID == absfn("StringToBytes32#0", prices[j].SignalID)
+//@        && result[j].Price == (prices[j].Price == 0 ? 0 : absfn("tickmath.PriceToTick#0", prices[j].Price)))
+//@ loop 0: invariant len(relayPrices) == #i
+//@ loop 0: invariant forall j :: 0 <= j && j < #i ==> relayPrices[j].SignalID == absfn("StringToBytes32#0", prices[j].SignalID)
+//@        && relayPrices[j].Price == (prices[j].Price == 0 ? 0 : absfn("tickmath.PriceToTick#0", prices[j].Price))
